@@ -272,6 +272,10 @@ class MetadorDataset(MetadorNode):
     _self_RO_FORBIDDEN = {"resize", "make_scale", "write_direct", "flush"}
 
     def __getattr__(self, key):
+        if hasattr(type(self), key):
+            # only reached if a property of the wrapper refused access (the error is an
+            # AttributeError subclass) -> must not fall through to the raw object
+            raise UnsupportedOperationError(key)
         if self.acl[NodeAcl.read_only] and key in self._self_RO_FORBIDDEN:
             self._guard_acl(NodeAcl.read_only, key)
         if self.acl[NodeAcl.skel_only] and key == "get":
